@@ -73,8 +73,13 @@ pub enum BKind {
     BlocksInoutB2b,
     /// `*_blocks_b2b(in, out)`
     BlocksB2b,
+    /// the caller's own closure handed to `*_with_backend`, calling the mode backend's
+    /// `*_par_blocks_inplace` / `*_tail_blocks_inplace` / `*_block_inplace` on its own buffer
+    BackendIp,
+    /// ... calling `*_par_blocks` / `*_tail_blocks` / `*_block` with separate in/out buffers
+    BackendInout,
 }
-pub const ALL_BKINDS: [BKind; 7] = [
+pub const ALL_BKINDS: [BKind; 9] = [
     BKind::BlockIp,
     BKind::BlockInout,
     BKind::BlockB2b,
@@ -82,13 +87,15 @@ pub const ALL_BKINDS: [BKind; 7] = [
     BKind::BlocksInoutIp,
     BKind::BlocksInoutB2b,
     BKind::BlocksB2b,
+    BKind::BackendIp,
+    BKind::BackendInout,
 ];
 impl BKind {
     pub fn is_b2b(self) -> bool {
-        matches!(self, BKind::BlockInout | BKind::BlockB2b | BKind::BlocksInoutB2b | BKind::BlocksB2b)
+        matches!(self, BKind::BlockInout | BKind::BlockB2b | BKind::BlocksInoutB2b | BKind::BlocksB2b | BKind::BackendInout)
     }
     pub fn is_multi(self) -> bool {
-        matches!(self, BKind::BlocksIp | BKind::BlocksInoutIp | BKind::BlocksInoutB2b | BKind::BlocksB2b)
+        matches!(self, BKind::BlocksIp | BKind::BlocksInoutIp | BKind::BlocksInoutB2b | BKind::BlocksB2b | BKind::BackendIp | BKind::BackendInout)
     }
     /// the in-place twin / b2b twin of a kind
     pub fn twin(self) -> BKind {
@@ -100,6 +107,8 @@ impl BKind {
             BKind::BlocksInoutIp => BKind::BlocksInoutB2b,
             BKind::BlocksInoutB2b => BKind::BlocksInoutIp,
             BKind::BlocksB2b => BKind::BlocksIp,
+            BKind::BackendIp => BKind::BackendInout,
+            BKind::BackendInout => BKind::BackendIp,
         }
     }
     pub fn name(self) -> &'static str {
@@ -111,6 +120,8 @@ impl BKind {
             BKind::BlocksInoutIp => "blocks_inout(ip)",
             BKind::BlocksInoutB2b => "blocks_inout(b2b)",
             BKind::BlocksB2b => "blocks_b2b",
+            BKind::BackendIp => "with_backend(inplace methods)",
+            BKind::BackendInout => "with_backend(inout methods)",
         }
     }
 }
@@ -360,6 +371,222 @@ fn key_of<T: KeySizeUser>(k: &[u8]) -> Key<T> {
     Key::<T>::try_from(k).expect("harness: key length")
 }
 
+// ------------------------------------------------------------------ clone-if-Clone registry
+//
+// Whether a public type is `Clone` is a compile-time fact that generic code cannot ask about.
+// The instantiation crates (concrete types) probe it with autoref dispatch (`clone_probe!`) and
+// register the result here, so that a type that *becomes* Clone (BeltCtrCore is the only mode
+// type that is not) is picked up by the C16 monitors without any change to the harness.
+
+use std::any::TypeId;
+use std::collections::HashMap;
+use std::sync::{Mutex, OnceLock};
+
+static CLONE_REG: OnceLock<Mutex<HashMap<TypeId, (usize, usize)>>> = OnceLock::new();
+
+pub fn register_clone<T: 'static>(clone: Option<fn(&T) -> T>, clone_from: Option<fn(&mut T, &T)>) {
+    let m = CLONE_REG.get_or_init(|| Mutex::new(HashMap::new()));
+    m.lock().unwrap().insert(TypeId::of::<T>(), (clone.map(|f| f as usize).unwrap_or(0), clone_from.map(|f| f as usize).unwrap_or(0)));
+}
+pub fn lookup_clone<T: 'static>() -> (Option<fn(&T) -> T>, Option<fn(&mut T, &T)>) {
+    let Some(m) = CLONE_REG.get() else { return (None, None) };
+    match m.lock().unwrap().get(&TypeId::of::<T>()) {
+        // SAFETY: the usize values were produced from fn pointers of exactly these types for
+        // exactly this T (keyed by TypeId) in `register_clone`
+        Some(&(c, cf)) => unsafe {
+            (
+                if c == 0 { None } else { Some(core::mem::transmute::<usize, fn(&T) -> T>(c)) },
+                if cf == 0 { None } else { Some(core::mem::transmute::<usize, fn(&mut T, &T)>(cf)) },
+            )
+        },
+        None => (None, None),
+    }
+}
+
+pub struct CloneProbe<T>(pub PhantomData<T>);
+pub trait ProbeViaClone<T> {
+    fn fns(&self) -> (Option<fn(&T) -> T>, Option<fn(&mut T, &T)>);
+}
+impl<T: Clone> ProbeViaClone<T> for CloneProbe<T> {
+    fn fns(&self) -> (Option<fn(&T) -> T>, Option<fn(&mut T, &T)>) {
+        (Some(|x| x.clone()), Some(|d, s| d.clone_from(s)))
+    }
+}
+pub trait ProbeNoClone<T> {
+    fn fns(&self) -> (Option<fn(&T) -> T>, Option<fn(&mut T, &T)>);
+}
+impl<T> ProbeNoClone<T> for &CloneProbe<T> {
+    fn fns(&self) -> (Option<fn(&T) -> T>, Option<fn(&mut T, &T)>) {
+        (None, None)
+    }
+}
+
+/// `clone_probe!(Type)`: registers `Type`'s Clone / clone_from if (and only if) it is Clone.
+/// Must be expanded where `Type` is concrete.
+#[macro_export]
+macro_rules! clone_probe {
+    ($t:ty) => {{
+        #[allow(unused_imports)]
+        use $crate::subj::{ProbeNoClone, ProbeViaClone};
+        let (c, cf) = (&$crate::subj::CloneProbe::<$t>(core::marker::PhantomData)).fns();
+        $crate::subj::register_clone::<$t>(c, cf);
+    }};
+}
+
+// ------------------------------------------------------------------ caller-side backend closures
+
+use cipher::{
+    BlockModeDecBackend, BlockModeDecClosure, BlockModeEncBackend, BlockModeEncClosure, StreamCipherBackend, StreamCipherClosure,
+    crypto_common::BlockSizes,
+};
+
+/// What a downstream user may write: a closure that drives the *mode backend* directly, in
+/// any legal order of its methods. `order`:
+///   0 = full batches, then `*_tail_blocks` (always, also when empty) -- what `cipher` does
+///   1 = full batches, `*_tail_blocks` only when the tail is non-empty
+///   2 = full batches, then the single-block method for the rest
+///   3 = the single-block method for everything
+///   4 = one single block first, then full batches, then single blocks
+struct UserClosure<'a, BS: BlockSizes> {
+    inp: &'a [Array<u8, BS>],
+    out: &'a mut [Array<u8, BS>],
+    inplace: bool,
+    order: u8,
+}
+impl<BS: BlockSizes> BlockSizeUser for UserClosure<'_, BS> {
+    type BlockSize = BS;
+}
+
+macro_rules! user_closure_body {
+    ($self:ident, $backend:ident, $B:ident, $blk_ip:ident, $par_ip:ident, $tail_ip:ident, $blk:ident, $par:ident, $tail:ident) => {{
+        let w = $B::ParBlocksSize::USIZE;
+        let order = if w == 1 { 3 } else { $self.order };
+        if $self.inplace {
+            let mut rest: &mut [Array<u8, BS>] = $self.out;
+            if order == 3 {
+                for b in rest.iter_mut() {
+                    $backend.$blk_ip(b);
+                }
+                return;
+            }
+            if order == 4 && !rest.is_empty() {
+                let (first, r) = rest.split_at_mut(1);
+                $backend.$blk_ip(&mut first[0]);
+                rest = r;
+            }
+            let (chunks, tail) = Array::<Array<u8, BS>, $B::ParBlocksSize>::slice_as_chunks_mut(rest);
+            for c in chunks {
+                $backend.$par_ip(c);
+            }
+            match order {
+                0 => $backend.$tail_ip(tail),
+                1 => {
+                    if !tail.is_empty() {
+                        $backend.$tail_ip(tail)
+                    }
+                }
+                _ => {
+                    for b in tail.iter_mut() {
+                        $backend.$blk_ip(b);
+                    }
+                }
+            }
+        } else {
+            let mut buf = InOutBuf::new($self.inp, $self.out).expect("harness: equal lengths");
+            if order == 3 {
+                for b in buf {
+                    $backend.$blk(b);
+                }
+                return;
+            }
+            if order == 4 && !buf.is_empty() {
+                let (mut first, r) = buf.split_at(1);
+                $backend.$blk(first.get(0));
+                buf = r;
+            }
+            let (chunks, tail) = buf.into_chunks::<$B::ParBlocksSize>();
+            for c in chunks {
+                $backend.$par(c);
+            }
+            match order {
+                0 => $backend.$tail(tail),
+                1 => {
+                    if !tail.is_empty() {
+                        $backend.$tail(tail)
+                    }
+                }
+                _ => {
+                    for b in tail {
+                        $backend.$blk(b);
+                    }
+                }
+            }
+        }
+    }};
+}
+
+impl<BS: BlockSizes> BlockModeEncClosure for UserClosure<'_, BS> {
+    fn call<B: BlockModeEncBackend<BlockSize = BS>>(self, backend: &mut B) {
+        user_closure_body!(self, backend, B, encrypt_block_inplace, encrypt_par_blocks_inplace, encrypt_tail_blocks_inplace, encrypt_block, encrypt_par_blocks, encrypt_tail_blocks)
+    }
+}
+impl<BS: BlockSizes> BlockModeDecClosure for UserClosure<'_, BS> {
+    fn call<B: BlockModeDecBackend<BlockSize = BS>>(self, backend: &mut B) {
+        user_closure_body!(self, backend, B, decrypt_block_inplace, decrypt_par_blocks_inplace, decrypt_tail_blocks_inplace, decrypt_block, decrypt_par_blocks, decrypt_tail_blocks)
+    }
+}
+
+/// keystream straight from the stream backend: `gen_par_ks_blocks` / `gen_tail_blocks` /
+/// `gen_ks_block`, in any legal order (`order` as for `UserClosure`)
+struct UserKsClosure<'a, BS: BlockSizes> {
+    out: &'a mut [Array<u8, BS>],
+    order: u8,
+}
+impl<BS: BlockSizes> BlockSizeUser for UserKsClosure<'_, BS> {
+    type BlockSize = BS;
+}
+impl<BS: BlockSizes> StreamCipherClosure for UserKsClosure<'_, BS> {
+    fn call<B: StreamCipherBackend<BlockSize = BS>>(self, backend: &mut B) {
+        let w = B::ParBlocksSize::USIZE;
+        let order = if w == 1 { 3 } else { self.order };
+        let mut rest: &mut [Array<u8, BS>] = self.out;
+        if order == 3 {
+            for b in rest.iter_mut() {
+                backend.gen_ks_block(b);
+            }
+            return;
+        }
+        if order == 4 && !rest.is_empty() {
+            let (first, r) = rest.split_at_mut(1);
+            backend.gen_ks_block(&mut first[0]);
+            rest = r;
+        }
+        let (chunks, tail) = Array::<Array<u8, BS>, B::ParBlocksSize>::slice_as_chunks_mut(rest);
+        for c in chunks {
+            backend.gen_par_ks_blocks(c);
+        }
+        match order {
+            0 => backend.gen_tail_blocks(tail),
+            1 => {
+                if !tail.is_empty() {
+                    backend.gen_tail_blocks(tail)
+                }
+            }
+            _ => {
+                for b in tail.iter_mut() {
+                    backend.gen_ks_block(b);
+                }
+            }
+        }
+    }
+}
+
+/// deterministic choice of a backend-call order from the data of the call
+fn order_of(data: &[u8]) -> u8 {
+    let h = data.iter().take(8).fold(data.len() as u32, |a, b| a.wrapping_mul(31).wrapping_add(*b as u32));
+    (h % 5) as u8
+}
+
 // ------------------------------------------------------------------ block-mode objects
 
 pub trait BlkObj: Send {
@@ -533,6 +760,15 @@ where
                 m.encrypt_blocks_b2b(chunks::<M::BlockSize>(inp), chunks_mut::<M::BlockSize>(out))
                     .expect("harness: equal lengths");
             }
+            BKind::BackendIp => {
+                out.copy_from_slice(inp);
+                let order = order_of(inp);
+                m.encrypt_with_backend(UserClosure { inp: &[], out: chunks_mut::<M::BlockSize>(out), inplace: true, order });
+            }
+            BKind::BackendInout => {
+                let order = order_of(inp);
+                m.encrypt_with_backend(UserClosure { inp: chunks::<M::BlockSize>(inp), out: chunks_mut::<M::BlockSize>(out), inplace: false, order });
+            }
         }
     }
     fn blocks_b2b_raw(&mut self, inp: &[u8], out: &mut [u8]) -> bool {
@@ -636,6 +872,15 @@ where
             BKind::BlocksB2b => {
                 m.decrypt_blocks_b2b(chunks::<M::BlockSize>(inp), chunks_mut::<M::BlockSize>(out))
                     .expect("harness: equal lengths");
+            }
+            BKind::BackendIp => {
+                out.copy_from_slice(inp);
+                let order = order_of(inp);
+                m.decrypt_with_backend(UserClosure { inp: &[], out: chunks_mut::<M::BlockSize>(out), inplace: true, order });
+            }
+            BKind::BackendInout => {
+                let order = order_of(inp);
+                m.decrypt_with_backend(UserClosure { inp: chunks::<M::BlockSize>(inp), out: chunks_mut::<M::BlockSize>(out), inplace: false, order });
             }
         }
     }
@@ -1151,14 +1396,15 @@ where
     T::Inner: KeyInit,
 {
     let w = construct_stream::<T>(ctor, key, iv)?;
+    let (clonef, clonefromf) = lookup_clone::<StreamCipherCoreWrapper<T>>();
     Ok(zbox(StreamAd {
         w,
         seekf: Some(seek_impl::<T>),
         posf: Some(pos_impl::<T>),
         bposf: Some(bpos_impl::<T>),
         ivf: Some(ivf_of::<T>),
-        clonef: None,
-        clonefromf: None,
+        clonef,
+        clonefromf,
     }))
 }
 /// seekable, encrypt-only cipher (no IvState for Belt; CTR has IvState always)
@@ -1215,7 +1461,7 @@ where
     let mut core: T = construct(Ctor::Inner, key, iv).expect("harness: ctor");
     let p = T::Counter::try_from(pos).ok().expect("harness: block position fits the counter type");
     core.set_block_pos(p);
-    wrap_seek(core, None)
+    wrap_seek(core, lookup_clone::<StreamCipherCoreWrapper<T>>().0)
 }
 
 // ------------------------------------------------------------------ keystream cores
@@ -1232,13 +1478,17 @@ pub enum CoreOp {
     ApplyBlocks,
     /// `apply_keystream_blocks_inout` b2b
     ApplyBlocksInout,
+    /// the caller's own closure handed to `process_with_backend`, calling `gen_par_ks_blocks` /
+    /// `gen_tail_blocks` / `gen_ks_block` itself (out = keystream)
+    BackendWrite,
 }
-pub const ALL_COREOPS: [CoreOp; 5] = [
+pub const ALL_COREOPS: [CoreOp; 6] = [
     CoreOp::WriteBlock,
     CoreOp::WriteBlocks,
     CoreOp::ApplyBlockInout,
     CoreOp::ApplyBlocks,
     CoreOp::ApplyBlocksInout,
+    CoreOp::BackendWrite,
 ];
 impl CoreOp {
     pub fn name(self) -> &'static str {
@@ -1248,10 +1498,11 @@ impl CoreOp {
             CoreOp::ApplyBlockInout => "apply_keystream_block_inout",
             CoreOp::ApplyBlocks => "apply_keystream_blocks",
             CoreOp::ApplyBlocksInout => "apply_keystream_blocks_inout",
+            CoreOp::BackendWrite => "process_with_backend(gen_* methods)",
         }
     }
     pub fn is_write(self) -> bool {
-        matches!(self, CoreOp::WriteBlock | CoreOp::WriteBlocks)
+        matches!(self, CoreOp::WriteBlock | CoreOp::WriteBlocks | CoreOp::BackendWrite)
     }
 }
 
@@ -1330,6 +1581,11 @@ where
             CoreOp::ApplyBlocksInout => {
                 let b = InOutBuf::new(chunks::<T::BlockSize>(inp), chunks_mut::<T::BlockSize>(out)).unwrap();
                 c.apply_keystream_blocks_inout(b);
+            }
+            CoreOp::BackendWrite => {
+                // the input bytes of a write op are ignored by the cipher: use them to pick the order
+                let order = if inp.is_empty() { ((out.len() / T::BlockSize::USIZE.max(1)) % 5) as u8 } else { order_of(inp) };
+                c.process_with_backend(UserKsClosure { out: chunks_mut::<T::BlockSize>(out), order });
             }
         }
     }
@@ -1426,13 +1682,14 @@ where
     T::Counter: TryFrom<u128>,
 {
     let c: T = construct(ctor, key, iv)?;
+    let (clonef, clonefromf) = lookup_clone::<T>();
     Ok(zbox(CoreAd {
         c,
         getf: Some(bpos_impl::<T>),
         setf: Some(set_impl::<T>),
         ivf: Some(ivf_of::<T>),
-        clonef: None,
-        clonefromf: None,
+        clonef,
+        clonefromf,
     }))
 }
 pub fn mk_core_seek_noclone_noiv<T>(ctor: Ctor, key: &[u8], iv: &[u8]) -> Result<Box<dyn CoreObj>, ()>
